@@ -60,6 +60,7 @@ func runC20(c *Ctx) {
 			purego = true
 		}
 	}
+	pureScan(c, "C20.pure.no-package-state", c.P.Func("pkg/curl", "Curl.transform"), c.P.Func("pkg/curl", "transformGeneric"))
 	c20SboxDefinition(c)
 	c20Go(c)
 	if !purego && (c.P.Cfg.GOARCH == "" || c.P.Cfg.GOARCH == "amd64") {
